@@ -91,6 +91,12 @@ class Batch:
             m = parse(mo)
             rep.corr_evals += 1
             agree = (m == impl_obs)
+            if not agree and mo.strip() == 'EXC Unmodelled':
+                # the model declares the input outside its domain (e.g. a compute function looking for its neighbours at negative
+                # indices in a rule made ill-formed by a near-miss edit): no correspondence is claimed there; the property oracle
+                # still judges the implementation.  Counted, so that the evidence shows how often it happens.
+                rep.hist['outside-model-domain(Unmodelled)'] = rep.hist.get('outside-model-domain(Unmodelled)', 0) + 1
+                agree = True
             if oracle is not None:
                 rep.oracle_evals += 1
             oc = 'EXC:' + str(impl_obs[1]) if impl_obs[0] == 'EXC' else 'ok'
